@@ -31,10 +31,11 @@ CACHE = os.path.join(common.CACHE, f'c12-{os.getpid()}')
 class World:
     """Reference values from fresh simulations, per model version."""
 
-    def __init__(self, rng, case):
+    def __init__(self, rng, case, gridding='same'):
         import emg3d
         self.emg3d = emg3d
         self.case = case
+        self.gridding = gridding
         hx = np.ones(8)*100.0
         self.grid = emg3d.TensorMesh(
             [hx, np.ones(6)*100.0, np.array([80., 90., 100., 100., 90., 80.])],
@@ -58,6 +59,13 @@ class World:
                          receiver_interpolation='linear', tqdm_opts=False,
                          solver_opts={'plain': True, 'tol': 1e-7,
                                       'tol_gradient': 1e-4, 'maxit': 60})
+        if gridding == 'input':
+            # a given computational grid with other nodes than the model
+            # grid (independent of the model, unlike estimated gridding)
+            self.opts['gridding'] = 'input'
+            self.opts['gridding_opts'] = emg3d.TensorMesh(
+                [np.ones(8)*100.0, np.ones(8)*75.0, np.ones(8)*67.5],
+                origin=(-400, -300, -270))
         # observed data from a different ("true") model
         true = self.simulation(-1)
         true.compute(observed=True, add_noise=False)
@@ -120,7 +128,8 @@ class World:
 
 OPS = ['compute', 'misfit', 'gradient', 'jvec', 'jtvec:1', 'jtvec:2', 'ge:0',
        'ge:3', 'gh:1', 'clean:computed', 'clean:keepresults', 'clean:all',
-       'copy:computed', 'copy:results', 'copy:all', 'copy:plain', 'update']
+       'copy:computed', 'copy:results', 'copy:all', 'copy:plain', 'update',
+       'updatei']
 
 
 def passive(world, sim):
@@ -214,6 +223,14 @@ def run_sequence(ctx, world, rng, k):
                     world.get(ver)
                     sim.model = world.model(ver)
                     sim.clean('computed')
+                elif name == 'updatei':
+                    # the model's arrays edited in place, then a clean
+                    ver += 1
+                    world.get(ver)
+                    new = world.model(ver)
+                    for key in world.base:
+                        getattr(sim.model, key)[...] = getattr(new, key)
+                    sim.clean('computed')
                 real.append(f"{ret} ; ver={ver} {passive(world, sim)}")
             except Exception as e:
                 real.append(f"raised {type(e).__name__}: {str(e)[:80]}")
@@ -278,10 +295,14 @@ def run(ctx):
         'estimated options a model replacement legitimately changes defaults',
     ]
     shutil.rmtree(CACHE, ignore_errors=True)
+    os.makedirs(CACHE, exist_ok=True)
     rng = ctx.nprng('seq')
-    worlds = [World(ctx.nprng('world-iso'), 'isotropic')]
+    worlds = [World(ctx.nprng('world-iso'), 'isotropic'),
+              World(ctx.nprng('world-inp'), 'isotropic', gridding='input')]
     if ctx.thorough:
         worlds.append(World(ctx.nprng('world-tri'), 'triaxial'))
+        worlds.append(World(ctx.nprng('world-tri-inp'), 'triaxial',
+                            gridding='input'))
     nseq = 150 if ctx.thorough else 28
     runs = []
     corpus = [
@@ -290,6 +311,8 @@ def run(ctx):
         ['ge:0', 'misfit'],
         ['gradient', 'copy:computed', 'compute', 'misfit'],
         ['compute', 'update', 'gradient'],
+        ['compute', 'updatei', 'gradient'],
+        ['compute', 'updatei', 'misfit'],
     ]
     for k in range(nseq + len(corpus)):
         world = worlds[k % len(worlds)]
@@ -306,8 +329,9 @@ def run(ctx):
         else:
             r = run_sequence(ctx, world, rng, k)
         runs.append((world, *r))
-    lines = [f"sim {len(w.pairs)} | " + ' '.join(ops)
-             for (w, ops, real, bo, fd) in runs]
+    lines = [f"sim {len(w.pairs)} | " + ' '.join(
+        'update' if o == 'updatei' else o for o in ops)
+        for (w, ops, real, bo, fd) in runs]
     out = common.run_driver(lines)
     bad = []
     hist = {}
@@ -338,7 +362,7 @@ def run(ctx):
                                 ['compute', 'misfit']):
                         hist_ops = ops[:i+1] + ext
                         r2 = run_fixed(ctx, w, hist_ops, fd)
-                        ver = sum(1 for o in hist_ops if o == 'update')
+                        ver = sum(1 for o in hist_ops if o in ('update', 'updatei'))
                         last = r2[-1].split(' ; ')[0] if r2 else ''
                         exp = {'misfit': f'mis({ver})',
                                'gradient': f'grad({ver})',
@@ -349,13 +373,14 @@ def run(ctx):
                                 f'history {hist_ops}: returns "{last}", a '
                                 f'fresh simulation gives "{exp}"',
                                 {'ops': hist_ops, 'file_based': fd,
-                                 'case': w.case})
+                                 'case': w.case, 'gridding': w.gridding})
                             found = True
                             break
                 if not found or sig != 'cache-state-differs':
                     ctx.violation(sig, what[:600], {'ops': ops[:i+1],
                                                     'file_based': fd,
-                                                    'case': w.case},
+                                                    'case': w.case,
+                                                    'gridding': w.gridding},
                                   found_input=(sig != 'cache-state-differs'))
                 break
         if bad_orig:
@@ -377,7 +402,9 @@ def run(ctx):
 def replay(ctx, rp):
     r = rp['replay']
     world = World(ctx.nprng('world-iso' if r.get('case') != 'triaxial'
-                            else 'world-tri'), r.get('case', 'isotropic'))
+                            else 'world-tri'), r.get('case', 'isotropic'),
+                  gridding=r.get('gridding', 'same'))
+    os.makedirs(CACHE, exist_ok=True)
 
     class R:
         def __init__(s, ops): s.ops, s.i = ops, 0
@@ -389,7 +416,8 @@ def replay(ctx, rp):
             return 'dict'
     ops, real, bo, fd = run_sequence(ctx, world, R(r['ops']),
                                      3 if r.get('file_based') else 0)
-    out = common.run_driver([f"sim {len(world.pairs)} | " + ' '.join(ops)])[0]
+    out = common.run_driver([f"sim {len(world.pairs)} | " + ' '.join(
+        'update' if o == 'updatei' else o for o in ops)])[0]
     steps = [canon_model(x) for x in out.split(' ;; ')]
     bad = [(m, x) for m, x in zip(steps, real) if m != x]
     print('replay:', bad[:1] or 'history agrees with a fresh simulation')
